@@ -30,6 +30,7 @@ import Driver.AchainChk
 import Vata.Proofs.LtsSim
 import Vata.Properties.C01
 import Vata.TrimCoded
+import Vata.RenameCoded
 import Vata.InclDownStack
 import Vata.UnionIsectMaps
 /-!
@@ -477,7 +478,29 @@ def checkRename (args res : List String) : Except String (Findings × String) :=
   let inj := (dedupL (A.states.map h)).length == A.states.length
   if inj then
     if !(← equivE A R) then f := f ++ ["violation injective-renaming-changes-language"]
-  pure (f, s!"inj={bchar inj}")
+  -- the loops AS CODED on the three-level store (`Vata/RenameCoded.lean`; `C14_coded_reindex_image`, `C14_coded_translate_symbols_merge`,
+  -- `C14_coded_strict_throws`, `C14_coded_weak_extends`): results as rule sets, the throwing functor, the fresh translator's counter
+  let cf := RenameCoded.reindexTotalTA A h
+  if !taEq (← taE res "fun") cf then f := f ++ [s!"mismatch ReindexStates coded model: {showTA cf}"]
+  let cs := RenameCoded.translateSymbolsTA A (lookupFn ym)
+  if !taEq (← taE res "sym") cs then f := f ++ [s!"mismatch TranslateSymbols coded model: {showTA cs}"]
+  let (cw, cm, cc) := RenameCoded.reindexWeakTA A [] 0
+  if !taEq (reindex (lookupFn fm) A) (reindex (lookupFn cm) A) && cm.length != fm.length then f := f ++ ["mismatch fresh translator: the coded model translates another number of states"]
+  if cc != fm.length || cw.states.length != (← taE res "fresh").states.length then f := f ++ [s!"mismatch fresh translator: counter {cc} after the coded run, {fm.length} entries reported"]
+  let mut thr := "-"
+  match args[4]? >>= String.toNat?, kv res "thrown" with
+  | some miss, some t =>
+    -- the functor throws on `miss`: the call throws iff `miss` is looked up, i.e. is a state of `A` (rules or final set)
+    let m' := (A.states.filter (· != miss)).map (fun q => (q, h q))
+    match RenameCoded.reindexStrictTA A m' with
+    | .error k =>
+      thr := "1"
+      if t != toString k then f := f ++ [s!"mismatch throwing functor: the coded model throws on {k}, the implementation reports {t}"]
+    | .ok _ =>
+      thr := "0"
+      if t != "-" then f := f ++ [s!"mismatch throwing functor: the implementation threw on {t}, the coded model does not throw"]
+  | _, _ => pure ()
+  pure (f, s!"inj={bchar inj} thrown={thr}")
 
 def checkLts (args res : List String) : Except String (Findings × String) := do
   let n ← getE (args[0]? >>= String.toNat?) "bad n"
